@@ -23,6 +23,8 @@ RULE = ('worlds drawn from the seeded spec generator (1-6 segments, rarely 100+;
 def opts(tier):
     o = gen.Opts()
     o.huge_p = 0.002
+    o.short_last_p = 0.05
+    o.equal_shapes_p = 0.15
     return o
 
 
@@ -41,7 +43,7 @@ def generate(rng, tier):
 
 def shape_sig(spec):
     return [(s.get('endian'), s.get('layout'), s.get('meta'), s.get('new_obj_list'), s.get('chunks'),
-             s.get('pad', 0) > 0, s.get('next_offset', 'explicit'),
+             s.get('pad', 0) > 0, s.get('next_offset', 'explicit'), s.get('short_last'),
              [(L['index'], L.get('type'), L.get('count'), len(L.get('props', []))) for L in s.get('listed', [])])
             for s in spec['segments']]
 
@@ -63,6 +65,8 @@ def cell_probes(res, w):
         res.probe('undeclared-group')
     if any(not s.has_meta for s in w.segs):
         res.probe('segment-without-metadata')
+    if any(sg.get('short_last') for sg in w.spec['segments']):
+        res.probe('stated-short-final-chunk')
 
 
 def compare_channels(tf, w, raw_ts, res, tagp='C01'):
@@ -77,7 +81,12 @@ def compare_channels(tf, w, raw_ts, res, tagp='C01'):
             out.append(V(tagp + '.len', '%s: len %d, expected %d' % (path, len(c), ch.count), type=ch.type))
         if ch.type is None:
             continue
-        data = c[:]
+        try:
+            data = c[:]
+        except Exception as exc:
+            out.append(V(tagp + '.data-raises', '%s[:] (%s): %s: %s' % (path, ch.type, type(exc).__name__, exc),
+                         type=ch.type, exc=type(exc).__name__))
+            continue
         res.compared += 1
         if ch.count > 0:
             res.nontrivial = True
